@@ -78,6 +78,8 @@ def selector(e: ast.AST, seq: str) -> Optional[Tuple[str, int]]:
 def _universe_of(ctx: Ctx, f: Func, e: ast.AST, env: Dict[str, ast.AST]) -> Optional[IntSet]:
     """IntSet of `range(a, b)` / `list(range(a, b))` with folded bounds."""
     e = resolve_local(e, env)
+    if isinstance(e, ast.Name) and e.id in f.module.consts and len(f.module.consts[e.id]) == 1:
+        e = f.module.consts[e.id][0]  # module-level constant (`_ALL_PORTS = range(1, 65535 + 1)`)
     if isinstance(e, ast.Call) and isinstance(e.func, ast.Name) and e.func.id == "list" and len(e.args) == 1:
         e = e.args[0]
     if isinstance(e, ast.Call) and isinstance(e.func, ast.Name) and e.func.id == "range" and len(e.args) == 2:
@@ -178,8 +180,13 @@ def op_paths(ctx: Ctx, f: Func, operators: List[str]) -> Dict[str, List[PathInfo
 def run(ctx: Ctx, rep: Report, tier: str) -> None:  # noqa: C901
     folder = ctx.folder
     operators = list(folder.const("helpers", "OPERATORS"))
-    fwd = ctx.func("Port._items_to_ports")
-    inv = ctx.func("Port._ports_to_items")
+    from .normalise import normalised
+
+    # a dispatch table of (operator, lambda) pairs iterated by the function is written out as the if-chain it denotes
+    fwd0, inv0 = ctx.func("Port._items_to_ports"), ctx.func("Port._ports_to_items")
+    fwd = normalised(ctx, fwd0, "unroll,beta")
+    inv = normalised(ctx, inv0, "unroll,beta")
+    orig = {id(fwd): fwd0, id(inv): inv0}  # call-graph edges point at the functions as written
     fparam = fwd.params[1]
     iparam = inv.params[1]
 
@@ -401,6 +408,12 @@ def run(ctx: Ctx, rep: Report, tier: str) -> None:  # noqa: C901
                 a, b = folder.fold(n.args[0], f.module), folder.fold(n.args[1], f.module)
                 if isinstance(a, int) and isinstance(b, int) and b - a > 1000:
                     sites.append((f.qualname, IntSet([(a, b - 1)]), n, f))
+        # a universe kept as a module-level constant that the function reads (`_ALL_PORTS = range(1, 65535 + 1)`)
+        for nm in sorted({x.id for x in own_nodes(f.node) if isinstance(x, ast.Name) and isinstance(x.ctx, ast.Load)}):
+            if nm in f.module.consts and len(f.module.consts[nm]) == 1:
+                u = _universe_of(ctx, f, f.module.consts[nm][0], {})
+                if u is not None and u.bounds()[1] - u.bounds()[0] > 1000:
+                    sites.append((f"{f.module.short}.{nm}", u, f.module.consts[nm][0], f))
     stp = ctx.func("helpers.string_to_ports")
     for n in own_nodes(stp.node):
         if isinstance(n, (ast.ListComp, ast.SetComp)):
@@ -432,7 +445,7 @@ def run(ctx: Ctx, rep: Report, tier: str) -> None:  # noqa: C901
             continue
         for caller in ctx.prog.funcs:
             for e in ctx.cg.all_edges(caller):
-                if e.target is f and e.kind == "call" and isinstance(e.site, ast.Call):
+                if e.target is orig[id(f)] and e.kind == "call" and isinstance(e.site, ast.Call):
                     rep.instance()
                     arg = e.site.args[0] if e.site.args else None
                     srt, why = _is_sorted(ctx, caller, arg)
